@@ -4,6 +4,7 @@ import (
 	"fmt"
 	"go/token"
 	"go/types"
+	"math/big"
 	"strings"
 
 	"golang.org/x/tools/go/ssa"
@@ -139,6 +140,10 @@ func (f *fctx) insID(ins ssa.Instruction) string {
 	return "?"
 }
 
+func pow2Str(k uint) string {
+	return new(big.Int).Lsh(big.NewInt(1), k).String()
+}
+
 func isFloat(t types.Type) bool {
 	b, ok := t.Underlying().(*types.Basic)
 	return ok && b.Info()&types.IsFloat != 0
@@ -177,8 +182,10 @@ func (f *fctx) rounded(name string, e Term) Term {
 		return e
 	}
 	r := f.declare(name, SReal)
-	// F1 (integers up to 2^53 are representable), F4 (relative error), sign preservation
+	// F1 (integers up to 2^53, and dyadic rationals p/2^35 with |p| <= 2^53, are representable),
+	// F4 (relative error), sign preservation
 	f.assume(T(SBool, "(=> (and (is_int %s) (<= (rabs %s) 9007199254740992.0)) (= %s %s))", e.S, e.S, r.S, e.S))
+	f.assume(T(SBool, "(=> (and (is_int (* %s 34359738368.0)) (<= (rabs (* %s 34359738368.0)) 9007199254740992.0)) (= %s %s))", e.S, e.S, r.S, e.S))
 	f.assume(T(SBool, "(<= (rabs (- %s %s)) (* (rabs %s) (/ 1.0 9007199254740992.0)))", r.S, e.S, e.S))
 	f.assume(T(SBool, "(and (=> (>= %s 0.0) (>= %s 0.0)) (=> (<= %s 0.0) (<= %s 0.0)))", e.S, r.S, e.S, r.S))
 	return r
@@ -276,9 +283,12 @@ func (f *fctx) binop(ins *ssa.BinOp) {
 		ed := f.define(ins.Name()+"e", e)
 		var r Term
 		if exact {
-			// scaling by a power of two is exact (no overflow/underflow: trusted, see DESIGN 2.8)
+			// scaling by a power of two is exact provided the result neither overflows nor
+			// underflows: that side condition is an X obligation
 			r = ed
-			f.sc.Trusted["float: scaling by a power of two treated as exact (no overflow/underflow)"] = true
+			if !f.ideal && !(f.pow2Vals[x.S] && f.pow2Vals[y.S]) {
+				f.oblige("X", fmt.Sprintf("X/scale-exact@%s", f.insID(ins)), T(SBool, "(or (= %s 0.0) (and (>= (rabs %s) (/ 1.0 %s.0)) (<= (rabs %s) %s.0)))", ed.S, ed.S, pow2Str(1022), ed.S, pow2Str(1023)), pos, "power-of-two scaling stays in the normal float64 range (no underflow/overflow), hence exact")
+			}
 			if f.pow2Vals[x.S] && f.pow2Vals[y.S] {
 				f.pow2Vals[r.S] = true
 			}
